@@ -45,6 +45,17 @@ prop("C17", engine="fsmsim", level="exploration", technique="deterministic simul
      text="Announcements must be a subsequence of the sent events (no reordering, no duplicates), events applied before any ending event must be announced, rejected events are never announced, snapshots equal the durable state sequence.",
      note="manager-level subscribers (global/per-transfer, unsubscribe) are covered by the netsim strata")
 
+prop("C07", engine="fsmsim", level="exploration", technique="deterministic simulation; sequential reference model + porcupine linearizability check of concurrent block reports",
+     rule="one evaluation = one seeded run: a channel in a transferring status receives 10-60 block reports (fixed size/uniqueness per traversal position, replays after simulated transport restarts, clean process restarts between reports) checked against the reference totals after every flush, or 2-4 concurrent reporter tasks with tape-chosen preemption whose recorded call/return history is checked with porcupine; non-trivial = every run (>= 10 reports or >= 4 concurrent operations); distinct = schedule hash",
+     probes=["replay-after-restart", "porcupine-ok", "same-position-concurrently", "nontrivial"], real=REAL_FSM, stubs=STUB_FSM, assumptions=ASSUME + ["positions are reported in increasing runs with restarts (as a transport does); a position keeps its size and uniqueness", "process restarts happen between reports after a flush (the property's quantifier)"],
+     text="Byte totals must equal the sum of unique block sizes over distinct reported positions and index totals the highest position, after every flush and across restarts; concurrent histories must be linearizable w.r.t. the high-water-mark model (porcupine, <= 24 ops).",
+     note="netsim strata add the totals real transfers produce")
+prop("C08", engine="fsmsim", level="exploration", technique="deterministic simulation; reference (limit,total) model with boundary-biased limits; porcupine for concurrent reporters",
+     rule="one evaluation = one seeded run as C07 with a data limit placed at/around a prefix sum (exactly, +1, -1, arbitrary), limit raises/lowers/lifts between reports and clean restarts; checks pause signal, DataLimitExceeded, ResponderPaused and persistence of limit and progress; non-trivial = every run; distinct = schedule hash",
+     probes=["limit-crossed", "limit-hit-exactly", "limit-changed", "nontrivial"], real=REAL_FSM, stubs=STUB_FSM, assumptions=ASSUME,
+     text="No report pauses below the limit or with limit 0; the report that first reaches the limit returns the pause signal, DataLimitExceeded is announced and the responder is marked paused; the rule re-applies after every limit change and after restarts. Manager-level resume/reject rules and 'no payload moves while paused' are netsim strata.",
+     note="only the limited counter of the role (queued for pull responder, received for push responder) may pause")
+
 ORDER = ["C%02d" % i for i in range(1, 21)]
 PENDING = {pid: "check under construction in this session (engine not yet registered); not claimed until its quick command runs clean" for pid in ORDER if pid not in P}
 
